@@ -96,6 +96,10 @@ fn build(tier: Tier) -> Vec<Scenario> {
                     // is a different situation from a loop that stops draining the edge
                     if name.ends_with("-expand") && cfg.capacity == 1 {
                         format!("{name}-over-capacity:")
+                    } else if name.starts_with("iterate") && cfg.capacity == 1 && input.len() >= 6 {
+                        // so is a first pass of more single-element batches than the whole cycle
+                        // head -> body -> feedback -> head can hold
+                        format!("{name}-first-pass-over-capacity:")
                     } else {
                         format!("{name}:")
                     },
